@@ -503,7 +503,11 @@ func (g *goGen) call(n *ast.CallExpr) (string, error) {
 				return "in_" + pn, nil
 			}
 			return "", errUneval
-		case "fresh", "newsince", "sameobj", "allocated", "visited", "cardvisited", "loopentry", "ranged", "unboxptr", "arrstr", "bitand", "bitor":
+		case "fresh":
+			// allocated by the call: not reachable from the arguments as they were before the call
+			s, err := strict(func() (string, error) { return arg(0) })
+			return "govcFreshIn(govcSeen, " + s + ")", err
+		case "newsince", "sameobj", "allocated", "visited", "cardvisited", "loopentry", "ranged", "unboxptr", "arrstr", "bitand", "bitor":
 			return "", fmt.Errorf("%s: %w", fn, errUneval)
 		}
 		if pf := g.S.Pure[fn]; pf != nil {
@@ -634,6 +638,58 @@ func generatable(t types.Type, depth int) bool {
 
 const replayHelpers = `
 func govcHas[K comparable, V any](m map[K]V, k K) bool { _, ok := m[k]; return ok }
+func govcReach(seen map[uintptr]bool, v reflect.Value, depth int) {
+	if depth > 8 || !v.IsValid() {
+		return
+	}
+	switch v.Kind() {
+	case reflect.Ptr:
+		if !v.IsNil() {
+			if seen[v.Pointer()] {
+				return
+			}
+			seen[v.Pointer()] = true
+			govcReach(seen, v.Elem(), depth+1)
+		}
+	case reflect.Interface:
+		if !v.IsNil() {
+			govcReach(seen, v.Elem(), depth+1)
+		}
+	case reflect.Slice:
+		if !v.IsNil() {
+			if v.Cap() > 0 {
+				seen[v.Pointer()] = true
+			}
+			for i := 0; i < v.Len(); i++ {
+				govcReach(seen, v.Index(i), depth+1)
+			}
+		}
+	case reflect.Map:
+		if !v.IsNil() {
+			seen[v.Pointer()] = true
+			it := v.MapRange()
+			for it.Next() {
+				govcReach(seen, it.Value(), depth+1)
+			}
+		}
+	case reflect.Struct:
+		for i := 0; i < v.NumField(); i++ {
+			govcReach(seen, v.Field(i), depth+1)
+		}
+	}
+}
+var govcSeen map[uintptr]bool // what was reachable from the arguments before the call of the current trial
+
+func govcFreshIn(seen map[uintptr]bool, x interface{}) bool {
+	v := reflect.ValueOf(x)
+	switch v.Kind() {
+	case reflect.Ptr, reflect.Map:
+		return !v.IsNil() && !seen[v.Pointer()]
+	case reflect.Slice:
+		return !v.IsNil() && v.Cap() > 0 && !seen[v.Pointer()]
+	}
+	return true
+}
 func govcN[T ~int | ~int8 | ~int16 | ~int32 | ~int64 | ~uint | ~uint8 | ~uint16 | ~uint32 | ~uint64 | ~uintptr](x T) int64 {
 	return int64(x)
 }
@@ -1173,6 +1229,10 @@ func buildReplayTest(P *Program, S *Specs, vc *FuncVC, label string, retSite str
 	for _, p := range pars {
 		shows = append(shows, fmt.Sprintf("%q + govcShow(old_%s)", p.name+" = ", p.name))
 	}
+	b.WriteString("\t\tgovcSeen = map[uintptr]bool{}\n")
+	for _, p := range pars {
+		fmt.Fprintf(&b, "\t\tgovcReach(govcSeen, reflect.ValueOf(&in_%s).Elem(), 0)\n", p.name)
+	}
 	b.WriteString("\t\tinput := " + strings.Join(shows, " + \"; \" + ") + "\n")
 	b.WriteString("\t\tfunc() {\n\t\t\tdefer func() {\n\t\t\t\tif r := recover(); r != nil {\n\t\t\t\t\tfmt.Printf(\"GOVC-CEX panic %v on input %s\\n\", r, input)\n\t\t\t\t\tt.FailNow()\n\t\t\t\t}\n\t\t\t}()\n")
 	lhs := ""
@@ -1242,6 +1302,28 @@ func tryReplay(P *Program, S *Specs, vcs []*FuncVC, f failure, rep map[string]an
 		m = []string{"", f.Func, "*", "0"}
 	}
 	key, label, ret := m[1], m[2], m[3]
+	// one search per (function, clause); at most six searches per run
+	ck := key + "|" + label
+	if prev, ok := replayCache[ck]; ok {
+		for k, v := range prev.rep {
+			rep[k] = v
+		}
+		return prev.ok
+	}
+	if len(replayCache) >= 6 {
+		rep["replay_note"] = "no concrete search: the limit of six searches per run was reached (earlier failed obligations of this run were searched)"
+		return false
+	}
+	found := false
+	defer func() {
+		keep := map[string]any{}
+		for _, k := range []string{"replay", "replay_note", "replay_search", "replay_test_source", "replay_command", "failing_input"} {
+			if v, ok := rep[k]; ok {
+				keep[k] = v
+			}
+		}
+		replayCache[ck] = replayResult{found, keep}
+	}()
 	var vc *FuncVC
 	for _, v := range vcs {
 		if v.key == key {
@@ -1277,8 +1359,16 @@ func tryReplay(P *Program, S *Specs, vcs []*FuncVC, f failure, rep map[string]an
 	}
 	rep["replay"] = "failing-input-found"
 	rep["failing_input"] = cex
+	found = true
 	return true
 }
+
+type replayResult struct {
+	ok  bool
+	rep map[string]any
+}
+
+var replayCache = map[string]replayResult{}
 
 // runReplayTest injects the test into the package with an overlay and runs it. ok is false when it did not build/run.
 func runReplayTest(pkgPath, src string) (out string, cmdline string, ok bool) {
